@@ -50,7 +50,7 @@ ASSUMPTIONS = ['CPython 3.12 reclamation: refcount zero frees immediately, cycle
                'no from_handle() on dead handles, no memory access through released wrappers (undefined by contract)']
 BUDGET = {'quick': 640, 'thorough': 12800}
 STEPS = {'quick': 40, 'thorough': 80}
-TIME = {'quick': 35, 'thorough': 600}
+TIME = {'quick': 20, 'thorough': 600}
 MIN_PER_SHARD = 160     # 4 shards in the quick tier (process start-up dominates), 16 in thorough
 
 NSLOTS = 8
@@ -279,14 +279,14 @@ class History(object):
         calls[key] = 0
         self.expect[key] = 0
         if box == 'raise':
-            def destructor(obj):
+            def destructor(*args):     # any invocation counts, whatever it is given
                 calls[key] += 1
                 raise ValueError('destructor %r fails (after being counted)' % (key,))
         elif box is None:
-            def destructor(obj):
+            def destructor(*args):     # any invocation counts, whatever it is given
                 calls[key] += 1
         else:
-            def destructor(obj):
+            def destructor(*args):     # any invocation counts, whatever it is given
                 calls[key] += 1
                 box             # closes over the box: wrapper -> destructor -> box
         return destructor
@@ -305,8 +305,8 @@ class History(object):
             addr2key[int(ffi.cast('uintptr_t', raw))] = astate['pending']
             return raw
 
-        def py_free(obj):
-            key = addr2key.get(int(ffi.cast('uintptr_t', obj)))
+        def py_free(*args):
+            key = addr2key.get(int(ffi.cast('uintptr_t', args[0]))) if len(args) == 1 else None
             if key is None:
                 astate['unknown_free'] += 1
             else:
